@@ -294,6 +294,19 @@ func (e *Exec) appendOp(fr *Frame, st State, cc *ssa.CallCommon, args []Val, pos
 	newLen := c.Add(s[1], tLen)
 	fits := c.Ule(newLen, s[2])
 	var outs []Outcome
+	if r := addrRoot(s[0]); (e.regions[r] != nil && e.regions[r].fresh && !e.escaped[r]) || (s[0].IsConst() && s[0].C == 0) {
+		// the backing array is private to this execution (never stored or passed on): whether
+		// append grows it in place or moves it cannot be observed, so one outcome suffices
+		ncap := c.Fresh("appcap", BV(64))
+		s2 := st.assume(c.Ule(newLen, ncap))
+		s2 = s2.assume(c.Ule(ncap, c.Const(64, 1<<41)))
+		var a *Term
+		s2, a = e.alloc(s2, c.Mul(ncap, c.Const(64, es)), "append")
+		s2 = e.zeroRange(s2, ET, a, ncap)
+		s2 = e.copyElems(s2, ET, a, s[0], s[1])
+		s2 = e.copyElems(s2, ET, c.Add(a, c.Mul(s[1], c.Const(64, es))), tBase, tLen)
+		return []Outcome{{st: s2, ret: Val{a, newLen, ncap}}}
+	}
 	// in place
 	if s1 := st.branch(fits); !fits.IsFalse() && !s1.pcFalse() {
 		s1 = e.copyElems(s1, ET, c.Add(s[0], c.Mul(s[1], c.Const(64, es))), tBase, tLen)
